@@ -1,7 +1,18 @@
 from vf.gen import Plan
+from props.fam_model import MEMBERS, member_module, LOAD_PARAMS, LOAD_ARGS, load_slices
 from props.fam_l2 import l2_module
 
 
 def build(tier, seed):
     mods = [l2_module("C05", tier)]
+
+    model_names = ['plain', 'rename', 'nested', 'nested2', 'forbid_nested', 'kwargs', 'rest_field_rename', 'saturator', 'as_list_forbid', 'list_gaps', 'list_in_dict', 'dict_in_list', 'pairs_map'] if tier == "quick" else list(MEMBERS)
+    for name in model_names:
+        mm = member_module("C05", name)
+        for sl, pre in load_slices(name, allow_bug=False).items():
+            mm.ob(f"model_{sl}_{name}", LOAD_PARAMS, f"return c05_model(MEMBER, MODEL, TREE, LOADERS, lambda: build_data(MEMBER, TREE, {LOAD_ARGS}))",
+                  pre=pre, timeout=120 if tier == "quick" else 900, family="generated model loaders (stub fields) x name_mapping recipes",
+                  bounds="slice " + sl + ": presence bits, symbolic stub codes, unknown keys, wrong node/root kinds, list truncation; 6 modes")
+
+        mods.append(mm)
     return Plan("C05", mods, assumptions=["CrossHair models of builtins"], bounds={}, outside=[])
